@@ -22,10 +22,13 @@
 //	                                   <dview> and carries the signature list <entry>... (an honest vote has
 //	                                   one)                               -> ok|reject|drop high=<id> view=<v> log=<..>
 //	cert                               GetCompleteHighQC                  -> id=<id> sigs=<..>
+//	propose                            ProcessProposal: the justify of the node's next proposal message, read
+//	                                   from the message it sends           -> id=<id> sigs=<..> | none
 //
 // entry = <addr><kind> as in engine safety: v valid signature by account <addr> over the id the message
-// names; r the same member signing again (other signature bytes); w signature over another id; c corrupted
-// signature; m claims <addr> but carries key+signature of an outsider.  An address >= n is a non-member.
+// names; r the same member signing again (other signature bytes); w signature over another id; o the member's
+// genuine signature over the root id 0 (valid only in a message naming 0); c corrupted signature; m claims <addr>
+// but carries key+signature of an outsider.  An address >= n is a non-member.
 // Logs and certificates are printed as <addr><v|x>+..., x = the stored signature does NOT verify (real
 // VerifyVoteMsgSign) for the id it is stored under.
 package main
@@ -38,6 +41,7 @@ import (
 	"sort"
 	"strconv"
 	"strings"
+	"time"
 
 	bft "github.com/xuperchain/xupercore/kernel/consensus/base/driver/chained-bft"
 	cCrypto "github.com/xuperchain/xupercore/kernel/consensus/base/driver/chained-bft/crypto"
@@ -96,8 +100,12 @@ func sign(i int, msg []byte) []byte {
 type entry struct {
 	addr int
 	kind byte
+	id   int // the id named by the message that carries the entry
 	sig  *bftpb.QuorumCertSign
 }
+
+// good: the entry is a genuine signature of account addr over the id its message names
+func (e entry) good() bool { return e.kind == 'v' || e.kind == 'r' || (e.kind == 'o' && e.id == 0) }
 
 // mkEntry builds the signature entry <addr><kind> of a message that names proposal id.
 func mkEntry(tok string, id int) (entry, error) {
@@ -121,6 +129,10 @@ func mkEntry(tok string, id int) (entry, error) {
 		e.Sign = sg
 	case 'w':
 		e.Sign = sign(a, []byte{byte(id), 0x77})
+	case 'o':
+		// the signature this account made over the ROOT id (a genuine vote for proposal 0), presented in a message
+		// that names <id>: the very bytes the collector may have verified before under the other id
+		e.Sign = sign(a, idBytes(0))
 	case 'c':
 		s := append([]byte{}, sign(a, idBytes(id))...)
 		s[len(s)/2] ^= 0x20
@@ -131,7 +143,7 @@ func mkEntry(tok string, id int) (entry, error) {
 	default:
 		return entry{}, fmt.Errorf("bad kind %q", tok)
 	}
-	return entry{addr: a, kind: kind, sig: e}, nil
+	return entry{addr: a, kind: kind, id: id, sig: e}, nil
 }
 
 // verifies: the real VerifyVoteMsgSign on a signature entry for proposal id (cached).
@@ -211,13 +223,16 @@ type arrival struct {
 
 type world struct {
 	smr   *bft.Smr
+	net   *stubNet
+	msgs  []*xuperp2p.XuperMessage // the proposal messages delivered to the collector, in order
 	el    *election
 	col   int
 	props map[int]proposal // proposals delivered (id -> what the proposal message said)
 	arr   []arrival
 	ops   []string
 	// ids whose quorum the collector declared through vote collection
-	declared map[int]bool
+	declared     map[int]bool
+	sentProposal *xuperp2p.XuperMessage
 }
 
 var w *world
@@ -239,8 +254,9 @@ func newWorld(n, col, c, b0, m int) *world {
 		el.cacheB = rangeAddrs(b0, m)
 	}
 	rules := &bft.DefaultSaftyRules{Crypto: cc, QcTree: tree, Log: logger}
-	smr := bft.NewSmr(bcName, a.Address, logger, &stubNet{}, cc, &bft.DefaultPaceMaker{}, rules, el, tree)
-	return &world{smr: smr, el: el, col: col, props: map[int]proposal{0: {view: 0, parent: -1}}, declared: map[int]bool{}}
+	net := newStubNet()
+	smr := bft.NewSmr(bcName, a.Address, logger, net, cc, &bft.DefaultPaceMaker{}, rules, el, tree)
+	return &world{smr: smr, net: net, el: el, col: col, props: map[int]proposal{0: {view: 0, parent: -1}}, declared: map[int]bool{}}
 }
 
 func quorum(n int) int { return n - (n-1)/3 - 1 }
@@ -274,7 +290,7 @@ func (w *world) supporters(id int, collectable bool) map[int]bool {
 			continue // a vote that lies about the view need not be collected
 		}
 		for _, e := range es {
-			if (e.kind == 'v' || e.kind == 'r') && e.addr >= lo && e.addr < lo+cnt && e.addr != w.col {
+			if e.good() && e.addr >= lo && e.addr < lo+cnt && e.addr != w.col {
 				res[e.addr] = true
 			}
 		}
@@ -439,7 +455,9 @@ func exec(line string, out *xvlib.Out) (res string) {
 		}
 		proposer := (w.col + 1) % w.el.n
 		highBefore := w.highID()
-		w.smr.VerifHandleReceivedProposal(propMsg(proposer, id, int64(view), parent, int64(pview), es))
+		pmsg := propMsg(proposer, id, int64(view), parent, int64(pview), es)
+		w.msgs = append(w.msgs, pmsg)
+		w.smr.VerifHandleReceivedProposal(pmsg)
 		if _, dup := w.props[id]; !dup {
 			w.props[id] = proposal{view: int64(view), parent: parent}
 		}
@@ -452,7 +470,7 @@ func exec(line string, out *xvlib.Out) (res string) {
 			if known && h == parent {
 				lo, cnt := w.el.members(p.view)
 				for _, e := range es {
-					if (e.kind == 'v' || e.kind == 'r') && e.addr >= lo && e.addr < lo+cnt {
+					if e.good() && e.addr >= lo && e.addr < lo+cnt {
 						good[e.addr] = true // the collector of that certificate is not known here: counted like CheckProposal does
 					}
 				}
@@ -495,11 +513,41 @@ func exec(line string, out *xvlib.Out) (res string) {
 		res = fmt.Sprintf("%s high=%d view=%d log=%s", ret, high, view, fmtSigns(signs, id))
 		w.voteOracles(out, id, int64(dview), es, known, highBefore, viewBefore, high, view, signs, res)
 		return res
+	case "propose":
+		// the node makes its next proposal: the justify it puts into the proposal message (reloadJustifyQC)
+		const newID = 150
+		if err := w.smr.ProcessProposal(w.smr.GetCurrentView(), idBytes(newID), []string{"peer"}); err != nil {
+			return "none"
+		}
+		var pm *bftpb.ProposalMsg
+		deadline := time.After(5 * time.Second)
+		for pm == nil {
+			select {
+			case m := <-w.net.sent:
+				got := &bftpb.ProposalMsg{}
+				if m.GetHeader().GetType() == xuperp2p.XuperMessage_CHAINED_BFT_NEW_PROPOSAL_MSG && p2p.Unmarshal(m, got) == nil && idOf(got.GetProposalId()) == newID {
+					pm = got
+					w.sentProposal = m
+				}
+			case <-deadline:
+				w.violate(out, "proposal-not-sent", "ProcessProposal returned nil but no proposal message was sent", "lost")
+				return "lost"
+			}
+		}
+		qc := &bft.QuorumCert{}
+		if err := json.Unmarshal(pm.GetJustifyQC(), qc); err != nil || qc.VoteInfo == nil {
+			return "unreadable"
+		}
+		id := idOf(qc.GetProposalId())
+		res = fmt.Sprintf("id=%d sigs=%s", id, fmtSigns(qc.GetSignsInfo(), id))
+		w.certOracle(out, id, qc.GetSignsInfo(), res, false)
+		w.replicaOracle(out, id, res)
+		return res
 	case "cert":
 		qc := w.smr.GetCompleteHighQC()
 		id := idOf(qc.GetProposalId())
 		res = fmt.Sprintf("id=%d sigs=%s", id, fmtSigns(qc.GetSignsInfo(), id))
-		w.certOracle(out, id, qc.GetSignsInfo(), res)
+		w.certOracle(out, id, qc.GetSignsInfo(), res, true)
 		return res
 	}
 	return "bad-op"
@@ -539,7 +587,7 @@ func (w *world) voteOracles(out *xvlib.Out, id int, dview int64, es []entry, kno
 	if delivered && known {
 		if sup := w.supporters(id, true); len(sup) >= need && len(es) > 0 {
 			first := es[0]
-			genuine := (first.kind == 'v' || first.kind == 'r') && first.addr >= lo && first.addr < lo+cnt && first.addr != w.col && dview == p.view
+			genuine := first.good() && first.addr >= lo && first.addr < lo+cnt && first.addr != w.col && dview == p.view
 			hv := w.props[high].view
 			if genuine && (view < p.view+1 || hv < p.view) {
 				w.violate(out, "genuine-quorum-not-declared", fmt.Sprintf("valid votes of %d distinct members besides the collector have arrived for proposal %d (view %d, %d required, n=%d) but HighQC is %d and the view %d",
@@ -567,7 +615,7 @@ func (w *world) voteOracles(out *xvlib.Out, id int, dview int64, es []entry, kno
 
 // certOracle: the certificate handed out for a HighQC that was reached by collecting votes carries a quorum and
 // is accepted by a replica's real CheckProposal.
-func (w *world) certOracle(out *xvlib.Out, id int, signs []*bftpb.QuorumCertSign, res string) {
+func (w *world) certOracle(out *xvlib.Out, id int, signs []*bftpb.QuorumCertSign, res string, direct bool) {
 	if !w.declared[id] {
 		return
 	}
@@ -583,6 +631,9 @@ func (w *world) certOracle(out *xvlib.Out, id int, signs []*bftpb.QuorumCertSign
 		w.violate(out, "certificate-below-quorum", fmt.Sprintf("the certificate the collector hands out for proposal %d carries valid signatures of %d distinct members besides itself; %d required (n=%d)", id, len(good), quorum(cnt), cnt), res)
 		return
 	}
+	if !direct {
+		return
+	}
 	// a replica that knows the proposal checks the certificate with the real CheckProposal
 	root := &bft.ProposalNode{In: &bft.QuorumCert{VoteInfo: &bft.VoteInfo{ProposalId: idBytes(id), ProposalView: p.view}}}
 	tree := &bft.QCPendingTree{Genesis: root, Root: root, HighQC: root, OrphanList: list.New(), OrphanMap: map[string]bool{}, Log: xvlib.Logger("replica")}
@@ -591,6 +642,34 @@ func (w *world) certOracle(out *xvlib.Out, id int, signs []*bftpb.QuorumCertSign
 	next := &bft.QuorumCert{VoteInfo: &bft.VoteInfo{ProposalId: idBytes(201), ProposalView: p.view + 1, ParentId: idBytes(id), ParentView: p.view}}
 	if err := rules.CheckProposal(next, parent, w.el.GetValidators(p.view)); err != nil {
 		w.violate(out, "certificate-rejected-by-replica", fmt.Sprintf("the certificate the collector hands out for proposal %d is refused by a replica's CheckProposal: %v", id, err), res)
+	}
+}
+
+// replicaOracle: end to end.  A replica (another validator, a real Smr of its own) that received the same proposal
+// messages as the collector receives the collector's NEXT proposal: if the collector declared the quorum for
+// proposal id by collecting genuine votes, the replica's real handleReceivedProposal must accept the justify (its
+// HighQC moves to id).
+func (w *world) replicaOracle(out *xvlib.Out, id int, res string) {
+	if !w.declared[id] || w.sentProposal == nil || id == 0 {
+		return
+	}
+	p := w.props[id]
+	lo, cnt := w.el.members(p.view)
+	rep := lo
+	if rep == w.col && cnt > 1 {
+		rep++
+	}
+	r := newWorld(w.el.n, rep, w.el.c, w.el.b0, w.el.m)
+	for _, m := range w.msgs {
+		r.smr.VerifHandleReceivedProposal(m)
+	}
+	if r.smr.VerifQcTree().DFSQueryNode(idBytes(id)) == nil {
+		return // the replica does not hold the proposal (refused justify): nothing to compare
+	}
+	before := r.highID()
+	r.smr.VerifHandleReceivedProposal(w.sentProposal)
+	if after := r.highID(); after != id && w.props[before].view <= p.view {
+		w.violate(out, "certificate-rejected-by-replica", fmt.Sprintf("the collector declared a quorum for proposal %d with genuine votes, but a replica that receives the collector's next proposal does not accept its justify (replica HighQC %d -> %d)", id, before, after), res)
 	}
 }
 
@@ -612,6 +691,13 @@ func (g *gen) run(kind string, lines []string) {
 			nontrivial = true
 			g.out.Count("vote:" + strings.Fields(r)[0])
 		}
+	}
+	// the node's next proposal (what it puts on the wire as justify): whenever HighQC left the root, else now and then
+	if w != nil && kind != "replay" && kind != "corpus" && (w.highID() != 0 || g.cases%16 == 0) {
+		l := "propose"
+		g.out.Begin(l)
+		g.out.Emit(l, exec(l, g.out))
+		lines = append(lines, l)
 	}
 	g.out.Case(strings.Join(lines, ";"), nontrivial)
 	g.out.Count("case:" + kind)
@@ -645,6 +731,7 @@ func alphabet(n, col, id int, v int64, full bool) []string {
 	a = append(a, vt(0, 0, fmt.Sprintf("%dv", m1)))  // genuine vote for another known proposal (the root)
 	if full {
 		a = append(a, vt(id, v, fmt.Sprintf("%dc", m1)), vt(id, v, fmt.Sprintf("%dm", m1)))
+		a = append(a, vt(id, v, fmt.Sprintf("%do", m1)))    // the member's genuine vote for the root, replayed for this id
 		a = append(a, vt(id+50, v, fmt.Sprintf("%dv", m1))) // a proposal the collector never received
 		a = append(a, vt(id, v, fmt.Sprintf("%dv %dv %dv", m1, n, n+1))) // riders: unchecked extra signatures
 		if len(others) > 1 {
